@@ -352,7 +352,11 @@ func (k *Kernel) sysOpenat(dirfd int, path string, flags int, what string) (int,
 	if e := k.enter(what, fmt.Sprintf("%d,%q,%#x", dirfd, path, flags)); e != 0 {
 		return -1, k.errno(e)
 	}
-	k.touched = append(k.touched, path)
+	if flags&(oWRONLY|oRDWR|oCREAT|oTRUNC) != 0 {
+		// (a read-only open — e.g. of the parent directory, to fsync it — modifies nothing and is not
+		// counted as touching the path)
+		k.touched = append(k.touched, path)
+	}
 	dir, en := k.dirOf(dirfd)
 	if en != 0 && !strings.HasPrefix(path, "/") {
 		return -1, k.errno(en)
@@ -1156,6 +1160,13 @@ func init() {
 					if _, ok := r.(*kernelCrash); ok {
 						crashed = true
 						m.depth = depth
+						// the crashed process is gone: the locks it held do not survive into the code
+						// that runs "after the reboot" in the same harness
+						if m.Mon != nil {
+							for _, l := range m.Mon.locks {
+								l.writer, l.readers = 0, 0
+							}
+						}
 						return
 					}
 					panic(r)
